@@ -14,7 +14,7 @@ import (
 )
 
 var atomText = map[string]string{
-	"a": "a", "bj": "b.json", "esc": "e s", "uni": "ué", "root": "root.json", "d1": "d1", "d2": "d2",
+	"a": "a", "bj": "b.json", "esc": "e s", "uni": "ué", "pct": "p%q", "root": "root.json", "d1": "d1", "d2": "d2",
 	"h1": "h1.example", "h2": "h2.example", "p": "p", ".": ".", "..": "..",
 }
 var textAtom = func() map[string]string {
